@@ -45,6 +45,7 @@ inductive Cls | prepareDump | err (e : Err)
 /-- the raise site (one constructor per `raise` statement / failing expression of the transcribed code) -/
 inductive Reason
   | noMo | noObasis | generalizedMo | pureFunctions          -- molden/molekel/wfn/wfx `prepare_dump`
+  | fractionalNelec                                          -- molekel `prepare_dump`
   | alphaUnavailable | alphaAufbau | betaUnavailable | betaAufbau | postScfLot   -- fchk `prepare_dump`
   | uNoMo | uGeneralized | uAminusb | uConvert               -- `prepare_unrestricted_aminusb`
   | sNoObasis | sContraction                                 -- `prepare_segmented`
@@ -80,8 +81,8 @@ def prepS (keepSp allow : Bool) (d : Obj) (same : Bool) (ws : List Warn) : Outco
 /-- the loop `for shell in data.obasis.shells: if any(kind != "c" for kind in shell.kinds): raise` -/
 def hasNonCart (b : Basis) : Bool := b.any fun sh => sh.kinds.any (· != "c")
 
-/-- the common body of `molden.prepare_dump`, `molekel.prepare_dump` (`cartOnly = false`) and
-`wfn.prepare_dump`, `wfx.prepare_dump` (`cartOnly = true`: with the Cartesian-only loop) -/
+/-- the common body of `molden.prepare_dump` (`cartOnly = false`) and `wfn.prepare_dump`,
+`wfx.prepare_dump` (`cartOnly = true`: with the Cartesian-only loop); `molekel.prepare_dump` is below -/
 def moBasis (cartOnly allow : Bool) (d : Obj) : Outcome :=
   match d.mo with
   | none => .raised .prepareDump .noMo                          -- if data.mo is None: raise
@@ -157,6 +158,33 @@ def fchk (allow : Bool) (d : Obj) : Outcome :=
     if d.postScf && !lotNamesPostScf d.lot then .raised .prepareDump .postScfLot
     else prepS true allow d true []          -- return prepare_segmented(data, True, allow_changes, filename, "FCHK")
 
+/-! ### molekel -/
+
+/-- the double `1e-7` (exact value of the literal in the source) -/
+def tol1em7 : Rat := (944473296573929 : Rat) / 9444732965739290427392
+
+/-- `data.mo.occs is not None and abs(data.mo.nelec - np.round(data.mo.nelec)) > 1e-7`
+(`MolecularOrbitals.nelec` is `None` without occupations, else `occs.sum()`) -/
+def fractionalNelec (m : MO) : Bool :=
+  match nelec m with
+  | none => false
+  | some n => decide (tol1em7 < absR (n - (roundHalfEven n : Int)))
+
+/-- `molekel.prepare_dump`: the Molden body with the electron-count guard after the generalized-orbitals guard -/
+def molekel (allow : Bool) (d : Obj) : Outcome :=
+  match d.mo with
+  | none => .raised .prepareDump .noMo
+  | some m =>
+    match d.obasis with
+    | none => .raised .prepareDump .noObasis
+    | some _ =>
+      if m.kind = .generalized then .raised .prepareDump .generalizedMo
+      else if fractionalNelec m then .raised .prepareDump .fractionalNelec
+      else
+        match prepU allow d true [] with
+        | .ret d1 same ws => prepS false allow d1 same ws
+        | r => r
+
 /-! ### json_qcschema -/
 
 /-- what `json_qcschema.dump_one` (the writer, after the file was opened) accepts -/
@@ -178,7 +206,7 @@ def qcschema (strict : Bool) (_allow : Bool) (d : Obj) : Outcome :=
 def prepareDump (qcStrict : Bool) : Fmt → Bool → Obj → Outcome
   | .fchk, a, d => fchk a d
   | .molden, a, d => moBasis false a d
-  | .molekel, a, d => moBasis false a d
+  | .molekel, a, d => molekel a d
   | .wfn, a, d => moBasis true a d
   | .wfx, a, d => moBasis true a d
   | .qcschema, a, d => qcschema qcStrict a d
@@ -189,11 +217,15 @@ end Iodata.Prep
 with the source through `Iodata/Gen/PrepareSkeleton.lean`; nesting depth before `|`, messages dropped) -/
 namespace Iodata.Prep.Skel
 
-/-- molden / molekel (`cartOnly = false`), wfn / wfx (`true`); `name` is the literal passed to the helpers -/
-def moBasis (name : String) (cartOnly : Bool) : List String :=
+/-- molden (`cartOnly = false`, `nelecGuard = false`), molekel (`nelecGuard = true`), wfn / wfx (`cartOnly = true`);
+`name` is the literal passed to the helpers -/
+def moBasis (name : String) (cartOnly : Bool) (nelecGuard : Bool := false) : List String :=
   ["0|if data.mo is None:", "1|raise PrepareDumpError",
    "0|if data.obasis is None:", "1|raise PrepareDumpError",
    "0|if data.mo.kind == 'generalized':", "1|raise PrepareDumpError"] ++
+  (if nelecGuard then
+    ["0|if data.mo.occs is not None and abs(data.mo.nelec - np.round(data.mo.nelec)) > 1e-07:", "1|raise PrepareDumpError"]
+   else []) ++
   (if cartOnly then
     ["0|for shell in data.obasis.shells:", "1|if any((kind != 'c' for kind in shell.kinds)):", "2|raise PrepareDumpError"]
    else []) ++
